@@ -28,7 +28,12 @@ RULE = ('grid: fixed diagrams (pk kinds int/auto/str/composite, required/optiona
         'left suspended and closed with .close(), broken out of a for loop and dropped, ended by a thrown Exception, '
         'GeneratorExit or KeyboardInterrupt), and for each such scenario every operation the diagram admits on every leftover '
         'object, outside a session and inside a fresh one, all applied to the same leftovers in a seed-dependent order '
-        '(complete); random: hypothesis-generated diagrams, rows, in-session scripts and operation sequences of length '
+        '(complete in the thorough tier; the quick tier is complete for with-block sessions of the first diagram, applies a '
+        'seed-dependent half of the operations elsewhere and uses decorator, generator and two-database sessions with the '
+        'first diagram only); sessions may also span a second '
+        'database (touched first or last, read or written) and end with a COMMIT that fails on either database; diagrams '
+        'may carry Json / int-array attributes whose values are changed in place (through the attribute or through the '
+        'container kept from the session); random: hypothesis-generated diagrams, rows, in-session scripts and operation sequences of length '
         '1..12. A case is one (scenario, operation) evaluation; non-trivial = anything but a plain read of an object '
         'left by a non-strict committed read-only session; distinct by the hash of (scenario, operation).')
 ASSUMPTIONS = ['SQLite 3 live through pony.orm.dbproviders.sqlite; the database content is read with the sqlite3 module '
@@ -636,6 +641,10 @@ def run_grid(ctx, pool):
         for act in (base.get('aux') or {}).get('script', []):
             model.apply_aux(act)
         ops = order_ops(all_ops(model, base['diagram']), ctx.seed, k)
+        if ctx.tier == 'quick' and (base['form'] != 'with' or base.get('aux') or
+                                    base['diagram'] != M.norm_diagram(GRID_DIAGRAMS_QUICK[0])):
+            ops = ops[::2]      # quick tier: complete for with-block sessions of the first diagram, a seed-dependent
+                                # half of the operations everywhere else
         evaluate(ctx, env, dict(base, ops=ops), status, shrink_ops=True)
 
 
@@ -1059,7 +1068,52 @@ def _to_dict_unsaved_member(case, message):
     return unsaved and end in ('rollback', 'exception')
 
 
-EXCLUSIONS = {'to_dict_unsaved_member': _to_dict_unsaved_member,
+def _tracked_mutation_before_check(case, message):
+    """an in-place change of a tracked Json / array value of a leftover object (data[k] = v, list.append, ...) is applied
+    first and refused afterwards: DatabaseSessionIsOver is raised, but the in-memory snapshot has already changed
+    (ormtypes.tracked_method calls the list/dict method before _changed_())"""
+    f, op, out = _failing(case)
+    if not op or not case.get('diagram', {}).get('json'):
+        return False
+    ops = case.get('ops', [])
+    upto = f.get('index', len(ops)) if f.get('stage') == 'op' else len(ops)
+    earlier = set()
+    for prev in ops[:upto]:
+        inner = prev[1] if prev[0] == 'new' else prev
+        if inner[0] == 'mutate':
+            earlier.add((json.dumps(inner[1]), inner[2]))
+    if not earlier:
+        return False
+    key = json.dumps(op[1]) if len(op) > 1 else None
+    if op[0] == 'mutate':       # a later in-place change meets a value that an earlier refused change has altered
+        return (key, op[2]) in earlier and out.get('exc') in ('KeyError', 'IndexError', 'TypeError', 'AttributeError')
+    if 'ok' not in out:
+        return False
+    if op[0] == 'read':
+        return (key, op[2]) in earlier
+    if op[0] == 'to_dict':
+        return any(k == key for k, a in earlier)
+    if op[0] == 'q_param' and len(op) > 3:
+        return (key, op[3]) in earlier
+    return False
+
+
+def _partial_commit_leaves_primary_alive(case, message):
+    """a with-block session over two databases whose final commit succeeds on the primary database (the one whose cache
+    was created last) and then fails on the other one (PartialCommitException): db_session.__exit__ never releases the
+    committed primary cache, so the objects of that database stay attached to a live cache (assignments succeed, loads die
+    with an AssertionError) and the next db_session of the thread adopts the stale cache"""
+    aux = case.get('aux')
+    if not aux or case.get('end') != 'commit_fault' or case.get('form', 'with') != 'with':
+        return False
+    fault_on_secondary = (case.get('fault') == 'aux' and aux.get('order') == 'first') or \
+                         (case.get('fault') == 'main' and aux.get('order') != 'first')
+    return fault_on_secondary
+
+
+EXCLUSIONS = {'tracked_mutation_before_check': _tracked_mutation_before_check,
+              'partial_commit_leaves_primary_alive': _partial_commit_leaves_primary_alive,
+              'to_dict_unsaved_member': _to_dict_unsaved_member,
               'entity_flush_unchecked': _entity_flush_unchecked,
               'close_without_connection': _close_without_connection,
               'is_empty_unchecked': _is_empty_unchecked}
